@@ -10,8 +10,9 @@ ASSUME = ["the caller's map is compared (deep: nested maps and slices) after the
 def nested_row(rng, i):
     return {"id": i, "ts": 1000 + i, "d": rng.choice(["ab", "Ab", "b"]), "g": rng.choice(["x", "y"]), "v": rng.choice([1, 2, 3, {"$f": 2.5}, None]),
             "w": rng.choice([0, 1, 2]), "k": rng.choice([1, 2]),
-            "o": {"f": rng.choice([1, 4]), "deep": {"z": [1, 2, {"q": "r"}]}}, "arr": [1, {"a": "b"}, [3, 4]],
-            "readings": [{"t": 1, "val": rng.choice([5, 6])}, {"t": 2, "val": 7}]}
+            "o": {"f": rng.choice([1, 4]), "deep": {"z": [1, 2, {"q": "r"}], "name": "ab"}}, "arr": [1, {"a": "b"}, [3, 4]],
+            "readings": [{"t": 1, "val": rng.choice([5, 6])}, {"t": 2, "val": 7}],
+            "tags": rng.choice([["a", "b", "a", "c"], ["b", "a"], ["c"], ["a", "a"]]), "tags2": rng.choice([["a", "z"], ["b"], []])}
 
 
 QUERIES = [  # (name, sql, mode choices, tables)
@@ -30,6 +31,9 @@ QUERIES = [  # (name, sql, mode choices, tables)
     ("unnest", "SELECT id, unnest(readings) AS r FROM stream", ["emit"], None),
     ("case", "SELECT id, CASE WHEN v > 1 THEN 'hi' ELSE 'lo' END AS lvl FROM stream", ["emit", "sync"], None),
     ("global", "SELECT g, count(*) AS c FROM stream GROUP BY g, GLOBAL WINDOW TRIGGER WHEN COUNT(*) >= 2", ["emit"], None),
+    ("array_fns", "SELECT id, array_remove(tags, 'a') AS t1, array_distinct(tags) AS t2, array_length(arr) AS n, array_contains(tags, 'b') AS c FROM stream", ["emit", "sync"], None),
+    ("array_fns2", "SELECT id, array_union(tags, tags2) AS u, array_intersect(tags, tags2) AS i, array_except(tags, tags2) AS x, array_position(tags, 'c') AS p FROM stream", ["emit", "sync"], None),
+    ("string_fns_nested", "SELECT id, upper(o.deep.name) AS un, concat(d, '-', g) AS dg, replace(d, 'a', 'z') AS r, split(d, 'b') AS sp FROM stream", ["emit", "sync"], None),
     ("cep_one_row", "SELECT * FROM stream MATCH_RECOGNIZE (PARTITION BY g ORDER BY ts MEASURES COUNT(*) AS n, FIRST(id) AS f PATTERN (A{2}) DEFINE A AS w >= 0)", ["emit"], None),
     ("cep_all_rows", "SELECT * FROM stream MATCH_RECOGNIZE (PARTITION BY g ORDER BY ts MEASURES CLASSIFIER() AS cls, COUNT(*) AS n ALL ROWS PER MATCH PATTERN (A{2}) DEFINE A AS w >= 0)", ["emit"], None),
     ("cep_all_rows_nopart", "SELECT * FROM stream MATCH_RECOGNIZE (ORDER BY ts MEASURES LAST(id) AS li ALL ROWS PER MATCH PATTERN (A B) DEFINE A AS w >= 0, B AS w >= 0)", ["emit"], None),
@@ -45,10 +49,20 @@ PAIRS = [  # same expression text with different column types, same SQL / differ
     ("SELECT g, count(*) AS c FROM stream GROUP BY g, CountingWindow(2)", "num", "SELECT g, sum(x) AS c FROM stream GROUP BY g, CountingWindow(3)", "num"),
     ("SELECT id, CASE WHEN x > 1 THEN 'a' ELSE 'b' END AS c FROM stream", "num", "SELECT id, CASE WHEN x > 1 THEN 'a' ELSE 'b' END AS c FROM stream", "str"),
     ("SELECT id, x + y AS r, x - y AS q FROM stream", "num", "SELECT id, x + y AS r FROM stream", "mixed"),
+    # two MATCH_RECOGNIZE instances over the same bare column: one never matches by itself (x <= 2), the other one's conditions fail to
+    # evaluate on its rows (no column y) while carrying large x
+    ("SELECT * FROM stream MATCH_RECOGNIZE (ORDER BY id MEASURES COUNT(*) AS n, LAST(id) AS li PATTERN (A A) DEFINE A AS x > 2)", "lowx",
+     "SELECT * FROM stream MATCH_RECOGNIZE (ORDER BY id MEASURES COUNT(*) AS n PATTERN (A A) DEFINE A AS x > 2 AND y > 0)", "bigx_noy"),
+    ("SELECT * FROM stream MATCH_RECOGNIZE (PARTITION BY g ORDER BY id MEASURES COUNT(*) AS n PATTERN (A B) DEFINE A AS x > 2, B AS x <= 2)", "num",
+     "SELECT * FROM stream MATCH_RECOGNIZE (PARTITION BY g ORDER BY id MEASURES COUNT(*) AS n PATTERN (A B) DEFINE A AS x > 2, B AS x / y > 1)", "bigx_noy"),
 ]
 
 
 def prow(rng, i, kind):
+    if kind == "lowx":
+        return {"id": i, "g": rng.choice(["p", "q"]), "x": rng.choice([1, 2]), "y": 1}
+    if kind == "bigx_noy":
+        return {"id": i, "g": rng.choice(["p", "q"]), "x": rng.choice([5, 7])}
     if kind == "num":
         return {"id": i, "g": rng.choice(["p", "q"]), "x": rng.choice([1, 2, 3, {"$f": 2.5}]), "y": rng.choice([1, 2, 4])}
     if kind == "str":
